@@ -549,6 +549,12 @@ class MiniEval(object):
                 return a ** b
             if isinstance(op, ast.FloorDiv):
                 return a // b
+            if isinstance(op, ast.LShift):
+                return a << b
+            if isinstance(op, ast.RShift):
+                return a >> b
+            if isinstance(op, ast.BitXor):
+                return a ^ b
         except Unknown:
             raise
         except Exception as e:
